@@ -2,7 +2,7 @@
 # runs every property's thorough command in turn (from the directory it is started in); one line per property
 cd "$(dirname "$0")/.."
 python3 -m harness.build --all > /dev/null 2>&1
-for p in C01 C02 C03 C04 C05 C06 C07 C08 C09 C10 C11 C12 C13 C14 C15 C16 C17 C18 C19 C20; do
+for p in ${@:-C01 C02 C03 C04 C05 C06 C07 C08 C09 C10 C11 C12 C13 C14 C15 C16 C17 C18 C19 C20}; do
   s=$(date +%s); /venv/bin/python -m harness.check $p --tier thorough > .work/thorough_$p.log 2>&1; rc=$?
   echo "$p rc=$rc $(( $(date +%s)-s ))s viol=$(grep -c '^VIOLATION' .work/thorough_$p.log) known=$(grep -c '^KNOWN' .work/thorough_$p.log)"
 done
